@@ -507,7 +507,8 @@ def data_space_layout(ctx: Ctx):
     # ---- the (agents x sparse-choice combinations) grid, whatever way it is built (loops, comprehensions,
     # dict merges): located as the dict whose entries are masked, then brought to comprehension normal form
     from lcmsa.alg import hoist, norm
-    from lcmsa.rules_kernel import comprehend, fuse_comps, renumber_bv
+    from lcmsa.core import canon_bv as renumber_bv
+    from lcmsa.rules_kernel import comprehend, fuse_comps
 
     space0 = calls_in(tuple(frame_terms(fr)), "lcm.interfaces.Space")
     need(space0, "no Space built")
